@@ -523,9 +523,16 @@ func evaluate(c *hx.Ctx, w *hx.Watch, reg *mirror.Registry, k, j int, mode, stat
 	w.End()
 	// the model's table must be the collector's table
 	snap := dec.CP.VerifTemplates()
-	if len(snap) != len(model) {
-		c.Violation(k, "template-table", fmt.Sprintf("after the setup messages the collector holds %d templates, the model %d", len(snap), len(model)), detail())
-		return
+	// (a template without fields decodes nothing; RFC 7011 8.1 reads it as a withdrawal: held or not is the same to every data set)
+	held := map[mirror.Key]bool{}
+	for _, ti := range snap {
+		held[mirror.Key{Domain: ti.ObsDomainID, TID: ti.TemplateID}] = true
+	}
+	for mk, l := range model {
+		if !held[mk] && len(l.Fields) > 0 && !l.Gray { // (a reduced-size template is one the library does not support: it may refuse it)
+			c.Violation(k, "template-table", fmt.Sprintf("after the setup messages the collector holds %d templates and not (%d,%d), the model %d", len(snap), mk.Domain, mk.TID, len(model)), detail())
+			return
+		}
 	}
 	for _, ti := range snap {
 		l, ok := model[mirror.Key{Domain: ti.ObsDomainID, TID: ti.TemplateID}]
